@@ -815,6 +815,14 @@ def plan_c08(prop, tier, seed, t0):
                      {"do": "sopen", "h": "s", "c": 5, "sub": S2, "max": 100}, {"do": "settle"}, {"do": "sabandon", "h": "s"},
                      {"do": "drain", "c": 9}]
             out.append(scn("c08-keys-%d" % i, steps, seed=sd + i))
+        # megabytes of payload in front of small messages (a response close to the 4 MiB client limit)
+        for i in range(2):
+            msgs = [{"p": "big#%d" % j} for j in range(3)] + [{"p": "tail%d-%d" % (i, j)} for j in range(4)]
+            steps = [call(1, op="CreateTopic", name=T1), call(1, op="CreateSub", name=S1, topic=T1, ack=10)]
+            steps += ([call(2, op="Publish", topic=T1, msgs=msgs)] if i == 0 else [call(2, op="Publish", topic=T1, msgs=[m]) for m in msgs])
+            steps += [call(3, op="Pull", sub=S1, max=100, ri=True), call(3, op="Pull", sub=S1, max=100, ri=True),
+                      call(3, op="Pull", sub=S1, max=100, ri=True), {"do": "drain", "c": 9}]
+            out.append(scn("c08-bytes-%d" % i, steps, seed=sd + i))
         # backlogs beyond the pull cap (1000), pulls asking for more (judged on sizes, light recording)
         for i, (n, mx) in enumerate([(1200, 1100), (2500, 2000)] if quick else [(1200, 1100), (2500, 2000), (1001, 1001), (3000, 70000)]):
             steps = [call(1, op="CreateTopic", name=T1), call(1, op="CreateSub", name=S1, topic=T1, ack=10),
@@ -934,6 +942,21 @@ def plan_c13(prop, tier, seed, t0):
                                                             "topic": "projects/p1/topics/t10", "ack": 10}})
                 steps.append({"do": "call", "c": 1, "call": {"op": "CreateTopic", "name": "projects/p1/topics/t9"}})
                 steps.append({"do": "call", "c": 1, "call": {"op": "CreateTopic", "name": "projects/p1/topics/t%d" % (m // 2 + 10)}})
+                # replace one resource by another (the totals are the same before and after) between two walks,
+                # and delete + re-create one under its old name (it moves to the end)
+                steps.append({"do": "walk", "c": 1, "kind": "topics", "arg": "projects/p1", "size": size})
+                steps.append({"do": "walk", "c": 1, "kind": "subs", "arg": "projects/p1", "size": size})
+                steps.append({"do": "call", "c": 1, "call": {"op": "DeleteTopic", "name": "projects/p1/topics/t12"}})
+                steps.append({"do": "call", "c": 1, "call": {"op": "CreateTopic", "name": "projects/p1/topics/t8"}})
+                steps.append({"do": "call", "c": 1, "call": {"op": "DeleteSub", "name": "projects/p1/subscriptions/s12"}})
+                steps.append({"do": "call", "c": 1, "call": {"op": "CreateSub", "name": "projects/p1/subscriptions/s8",
+                                                            "topic": "projects/p1/topics/t10", "ack": 10}})
+                steps.append({"do": "walk", "c": 1, "kind": "topics", "arg": "projects/p1", "size": size})
+                steps.append({"do": "walk", "c": 1, "kind": "subs", "arg": "projects/p1", "size": size})
+                steps.append({"do": "walk", "c": 1, "kind": "topicsubs", "arg": "projects/p1/topics/t10", "size": size})
+                steps.append({"do": "call", "c": 1, "call": {"op": "DeleteTopic", "name": "projects/p1/topics/t11"}})
+                steps.append({"do": "call", "c": 1, "call": {"op": "CreateTopic", "name": "projects/p1/topics/t11"}})
+                steps.append({"do": "walk", "c": 1, "kind": "topics", "arg": "projects/p1", "size": size})
                 steps.append({"do": "call", "c": 1, "call": {"op": "CreateSub", "name": "projects/p1/subscriptions/s10",
                                                             "topic": "projects/p1/topics/t10", "ack": 10}})
                 steps.append({"do": "walk", "c": 1, "kind": "topics", "arg": "projects/p1", "size": size})
@@ -945,6 +968,8 @@ def plan_c13(prop, tier, seed, t0):
                 proj["projects/p1/subscriptions/s%d" % (k + 10)] = "p1"
             proj["projects/p2/topics/t9"] = "p2"
             proj["projects/p1/topics/t9"] = "p1"
+            proj["projects/p1/topics/t8"] = "p1"
+            proj["projects/p1/subscriptions/s8"] = "p1"
             proj["projects/p1/subscriptions/s9"] = "p1"
             out.append({"id": "c13-big-%d" % i, "cap": 16, "seed": seed + i, "phase": 0,
                         "meta": {"clock": "paused", "proj": proj, "src": "big"}, "steps": steps})
@@ -989,7 +1014,7 @@ def plan_c15(prop, tier, seed, t0):
     # members of the wake-up families of C06 (the W9 big-backlog ones are in `extra` already)
     def waiting(quick, sd):
         return [s for s in c06_scenarios(6 if quick else 60, sd)
-                if any(w in s["id"] for w in ("-W1-", "-W2-", "-W3-", "-W4-", "-W5-", "-W10-", "-W11-", "-W12-", "-W14-"))]
+                if any(w in s["id"] for w in ("-W1-", "-W2-", "-W3-", "-W4-", "-W5-", "-W7-", "-W8-", "-W10-", "-W11-", "-W12-", "-W13-", "-W14-", "-W15-"))]
     return core_check(prop, tier, seed, t0, over, extra_scenarios=lambda quick, sd: extra(quick, sd) + waiting(quick, sd)
                       + inflight_delete_scenarios(sd, quick) + orphan_scenarios(sd, quick),
                       explore=[("data", 32, 1000), ("consumers", 16, 1000)],
@@ -1502,7 +1527,8 @@ def c07_mc(work, quick, violations):
 def plan_c07(prop, tier, seed, t0):
     n = 24 if tier == "quick" else 400
     return scenario_check(prop, tier, seed, t0, c07_scenarios(n, seed) + stream_ctrl_scenarios(seed, tier == "quick")
-                          + cancel_scenarios(seed, kinds={"DeleteSub", "DeleteTopic", "CreateSub"}, quick=tier == "quick"), mc=c07_mc,
+                          + cancel_scenarios(seed, kinds={"DeleteSub", "DeleteTopic", "CreateSub"}, quick=tier == "quick")
+                          + inflight_topic_delete_scenarios(seed, tier == "quick") + inflight_delete_scenarios(seed, tier == "quick"), mc=c07_mc,
                           explore=[("mixed", 48, 2000), ("churn", 24, 1000), ("consumers", 24, 1000)])
 
 
@@ -1858,6 +1884,12 @@ def plan_c18(prop, tier, seed, t0):
                           "/topics//", "/tøpics/", "/subscriptionz/"])
         pre = rnd.choice(["projects/", "projects/", "projects/", "project/", "Projects/", "/projects/", "projects//", ""])
         extra.add(pre + proj + seg + ident)
+    # long ids and projects (40, 41, 64, 255, 300 characters; ASCII and multi-byte)
+    for n_chars in (39, 40, 41, 42, 64, 100, 255, 300):
+        for unit in ("a", "x-", "é", "日"):
+            w = (unit * n_chars)[:n_chars]
+            extra.update(["projects/p/topics/" + w, "projects/p/subscriptions/" + w, "projects/" + w + "/topics/t",
+                          "projects/" + w + "/subscriptions/" + w, "projects/p/topics/" + w[:-1] + "/" + "z"])
     extra.update(["projects/lets-go/topics/deltio", "projects/p/subscriptions/x", "projects/p/topics/abcdefghi",
                   "projects/p/topics/a/", "projects/p/topics/a", "projects/p/topics//a", "projects/p/subscriptions/a/",
                   "projects/p/subscriptions/s", "projects/p/topics/t", "projects//topics/t", "projects/p/topics/"])
